@@ -49,6 +49,7 @@ static struct evws_connection *evws;
 static int alive;               /* session exists and its close callback has not run */
 static int nsessions, nclosed, upgrade_failed;
 static long long in_base, in_added, written; /* server-side input accounting / client bytes written after the handshake */
+static long long out_deleted, rx_total;      /* bytes the server handed to its socket / bytes the client received */
 static int client_eof, wr_dead, watchdog;
 static unsigned char *wb; static size_t wblen, wbcap;   /* bytes received by the client in this step */
 static char msglog[1 << 16]; static size_t msglen; static int nmsg;
@@ -93,6 +94,10 @@ static void in_cb(struct evbuffer *b, const struct evbuffer_cb_info *info, void 
 {
 	in_added += (long long)info->n_added;
 }
+static void out_cb(struct evbuffer *b, const struct evbuffer_cb_info *info, void *arg)
+{
+	out_deleted += (long long)info->n_deleted;
+}
 static void on_upgrade(struct evhttp_request *req, void *arg)
 {
 	struct evws_connection *c = evws_new_session(req, on_msg, NULL, 0);
@@ -105,6 +110,9 @@ static void on_upgrade(struct evhttp_request *req, void *arg)
 		in_base = (long long)evbuffer_get_length(in);
 		in_added = 0;
 		evbuffer_add_cb(in, in_cb, NULL);
+		/* the 101 response is still in the output buffer at this point, so every byte is counted */
+		out_deleted = 0;
+		evbuffer_add_cb(bufferevent_get_output(evws_connection_get_bufferevent(c)), out_cb, NULL);
 	}
 }
 
@@ -116,7 +124,7 @@ static int drain_client(void)
 	for (;;) {
 		if (wblen + 65536 > wbcap) { wbcap = wbcap ? wbcap * 2 : 1 << 17; wb = realloc(wb, wbcap); }
 		ssize_t r = read(cfd, wb + wblen, 65536);
-		if (r > 0) { wblen += (size_t)r; got += (int)r; continue; }
+		if (r > 0) { wblen += (size_t)r; got += (int)r; rx_total += r; continue; }
 		if (r == 0) { client_eof = 1; break; }
 		if (errno == EINTR) continue;
 		if (errno == EAGAIN || errno == EWOULDBLOCK) break;
@@ -153,6 +161,7 @@ static void settle(int want_head)
 		} else {
 			if (alive && !wr_dead && in_added < written) busy = 1; /* server has not read everything yet */
 			if (server_out_pending()) busy = 1;
+			if (nsessions && !client_eof && rx_total < out_deleted) busy = 1; /* bytes still in flight to the client */
 			if (!alive && nsessions && !client_eof) busy = 1;      /* connection freed: EOF must arrive */
 		}
 		if (!busy) { if (++idle >= 2) break; } else idle = 0;
@@ -280,7 +289,7 @@ static void run_scenario(jval *sc)
 {
 	jval *h = j_get(sc, "h");
 	cfd = -1; evws = NULL; alive = 0; nsessions = nclosed = upgrade_failed = 0;
-	in_base = in_added = written = 0; client_eof = wr_dead = watchdog = 0;
+	in_base = in_added = written = 0; client_eof = wr_dead = watchdog = 0; out_deleted = rx_total = 0;
 	wblen = 0; msglen = 0; msglog[0] = 0; nmsg = 0;
 	fprintf(out, "{\"obs\":[");
 	for (size_t k = 0; h && k < h->n; k++) {
